@@ -304,6 +304,8 @@ type worldA struct {
 	bExpect  []string // what B must still receive, in order
 	retained []string // model of events appended by the harness-driven operations
 	skipped  bool
+	loose    bool
+	allB     []string // every event the harness-driven operations produced, in order
 }
 
 func (w *worldA) token() string { w.tok++; return fmt.Sprintf("t%d", w.tok) }
@@ -322,6 +324,7 @@ func (w *worldA) do(b Bcast) *core.Violation {
 			ts.AgentSendNotify(a)
 			w.agents = append(w.agents, id)
 			w.bExpect = append(w.bExpect, "!newsession/"+a.NameID+"/"+wsx.AgentKeyB64(id))
+			w.allB = append(w.allB, "!newsession/"+a.NameID+"/"+wsx.AgentKeyB64(id))
 		case "console":
 			id := "0badc0de"
 			if len(w.agents) > 0 {
@@ -332,6 +335,7 @@ func (w *worldA) do(b Bcast) *core.Violation {
 			p := "out/" + id + "/" + tk
 			w.retained = append(w.retained, p)
 			w.bExpect = append(w.bExpect, p)
+			w.allB = append(w.allB, p)
 		case "mark":
 			id := "0badc0de"
 			if len(w.agents) > 0 {
@@ -341,6 +345,7 @@ func (w *worldA) do(b Bcast) *core.Violation {
 			p := "mark//" + id + "/Alive"
 			w.retained = append(w.retained, p)
 			w.bExpect = append(w.bExpect, p)
+			w.allB = append(w.allB, p)
 		case "ladd":
 			w.nextL++
 			name := fmt.Sprintf("hl%d", w.nextL)
@@ -351,6 +356,7 @@ func (w *worldA) do(b Bcast) *core.Violation {
 			p := "ladd//" + name + "/Online"
 			w.retained = append(w.retained, p)
 			w.bExpect = append(w.bExpect, p)
+			w.allB = append(w.allB, p)
 		case "chatB":
 			if w.b == nil {
 				return nil
@@ -361,6 +367,7 @@ func (w *worldA) do(b Bcast) *core.Violation {
 				p := "chat/" + w.bUser + "/" + tk
 				w.retained = append(w.retained, p)
 				w.bExpect = append(w.bExpect, p)
+			w.allB = append(w.allB, p)
 				if v := w.flushB(); v != nil {
 					return v
 				}
@@ -377,6 +384,21 @@ func (w *worldA) flushB() *core.Violation {
 	}
 	exp := w.bExpect
 	w.bExpect = nil
+	if w.loose {
+		// A has become an operator: B also sees A's own events; only wait for ours
+		for _, p := range exp {
+			for {
+				fr, ok, _ := w.b.Next(wsx.Watchdog)
+				if !ok {
+					return core.V("operatorB|missing|"+wsx.KindOf(p), "operator B did not receive %q within %v", p, wsx.Watchdog)
+				}
+				if pk, err := wsx.Decode(fr); err == nil && wsx.Proj(pk) == p {
+					break
+				}
+			}
+		}
+		return nil
+	}
 	return w.b.Expect("authenticated operator B", exp, "operatorB")
 }
 
@@ -511,7 +533,7 @@ func runA(raw json.RawMessage) *core.Violation {
 			}
 		}
 		dirty = true
-		return core.V("leak|"+phase+"|"+wsx.KindOf(strings.TrimPrefix(what, "!")), "a socket that has not authenticated (%s) received %q (%d bytes written to it)", phase, what, a.Peer.Written()-w0)
+		return core.V("leak|"+phase+"|"+leakKind(what), "a socket that has not authenticated (%s) received %q (%d bytes written to it)", phase, what, a.Peer.Written()-w0)
 	}
 	for _, b := range c.Pre {
 		if v := w.do(b); v != nil {
@@ -554,13 +576,23 @@ func runA(raw json.RawMessage) *core.Violation {
 	if err := a.Send(typ, first); err != nil {
 		return core.V("harness|send", "%v", err)
 	}
-	// settle: a reply, a close by the server, or the record's removal
+	// settle: the reply (Success or Error), a close by the server, or the record's removal;
+	// anything else that arrives meanwhile is kept and judged below
 	var got []wsx.Frame
+	accepted, answered := false, false
 	deadline = time.Now().Add(wsx.Watchdog)
-	for {
+	for !answered {
 		if fr, ok, _ := a.Next(200 * time.Microsecond); ok {
 			got = append(got, fr)
-			break
+			if pk, err := wsx.Decode(fr); err == nil {
+				switch wsx.Proj(pk) {
+				case "init/success":
+					accepted, answered = true, true
+				case "init/error":
+					answered = true
+				}
+			}
+			continue
 		}
 		if a.Peer.ClosedByServer() {
 			break
@@ -579,13 +611,8 @@ func runA(raw json.RawMessage) *core.Violation {
 		return v
 	}
 
-	accepted := false
-	if len(got) > 0 {
-		if pk, err := wsx.Decode(got[0]); err == nil && wsx.Proj(pk) == "init/success" {
-			accepted = true
-		}
-	}
 	if accepted {
+		w.loose = true
 		handlersAlive++
 		wsx.Obs("outcome:accepted")
 	} else {
@@ -623,6 +650,7 @@ func runA(raw json.RawMessage) *core.Violation {
 		b, _ := json.Marshal(followPkg(f, w, user))
 		a.Send(websocket.BinaryMessage, b)
 	}
+	postFrom := len(w.allB)
 	for _, b := range c.Post {
 		if len(fx.LeakedMutexes(2*time.Millisecond)) > 0 {
 			w.skipped = true
@@ -667,7 +695,12 @@ func runA(raw json.RawMessage) *core.Violation {
 			return core.V("accepted|"+clsKey(c.Cls), "a first message that does not name an operator with that operator's digest (%s: %s) was answered with Success; frames: %v", c.Cls, rd.why, clip(frames))
 		}
 		// Success, then the replay: profile event first, own NewUser, every live session
-		if len(frames) < 2 || frames[1] != "init/profile" {
+		// (a broadcast racing the handshake may legitimately land between "authenticated" and the Success frame)
+		si := 0
+		for si < len(frames) && frames[si] != "init/success" {
+			si++
+		}
+		if si+1 >= len(frames) || frames[si+1] != "init/profile" {
 			return core.V("login|replay-does-not-start-with-profile", "frames after a correct login: %v", clip(frames))
 		}
 		have := map[string]bool{}
@@ -694,12 +727,16 @@ func runA(raw json.RawMessage) *core.Violation {
 			nerr++
 			continue
 		}
-		phase := "after-refusal"
-		if i == 0 || nerr == 0 {
-			phase = "during-handshake"
+		// events of the post-reply broadcasts are "after-refusal"; everything else raced the handshake
+		phase := "during-handshake"
+		_ = i
+		for _, p := range w.allB[postFrom:] {
+			if p == f {
+				phase = "after-refusal"
+			}
 		}
 		dirty = true
-		return core.V("leak|"+phase+"|"+wsx.KindOf(strings.TrimPrefix(f, "!")), "a socket whose first message was refused (%s) received %q; all frames: %v", c.Cls, f, clip(frames))
+		return core.V("leak|"+phase+"|"+leakKind(f), "a socket whose first message was refused (%s) received %q; all frames: %v", c.Cls, f, clip(frames))
 	}
 	if nerr != 1 {
 		return core.V("refused|error-frames="+fmt.Sprint(nerr), "refused first message (%s) got %d error frames: %v", c.Cls, nerr, clip(frames))
@@ -738,6 +775,14 @@ func runA(raw json.RawMessage) *core.Violation {
 		}
 	}
 	return nil
+}
+
+// leakKind: session announcements carry the agent's AES key and IV; everything else is "event".
+func leakKind(proj string) string {
+	if wsx.KindOf(strings.TrimPrefix(proj, "!")) == "newsession" {
+		return "newsession-with-keys"
+	}
+	return "event"
 }
 
 func contains(xs []string, x string) bool {
